@@ -92,7 +92,10 @@ def main():
     sh("git checkout -- .", wt)
     confirmed = (not failed) and demo_fails and demo_passes
     meta["confirmed"] = confirmed
-    # against /repo with the checks
+    # against /repo with the checks (one at a time: several runs of this script may confirm their changes side by side)
+    import fcntl
+    lock = open("/tmp/seed_verify_repo.lock", "w")
+    fcntl.flock(lock, fcntl.LOCK_EX)
     rc, out = sh("git status --short", "/repo")
     if out.strip():
         print("/repo is not clean:", out)
